@@ -8,7 +8,9 @@ import (
 	"bytes"
 	"encoding/hex"
 	"fmt"
+	"math/rand"
 	"sort"
+	"sync/atomic"
 	"time"
 
 	"github.com/cuteLittleDevil/go-jt808/protocol/jt808"
@@ -132,6 +134,45 @@ func init() {
 			return ph, true
 		}})
 		r := newRand(2020)
+		// other terminals are busy on the same server all the while (authentications with other codes, multimedia uploads with other
+		// ids): what the server answers a simulator's frame does not depend on them
+		stopNoise := make(chan struct{})
+		defer close(stopNoise)
+		for k := 0; k < 3; k++ {
+			np := []byte{0x01, 0x32, 0x00, 0x00, 0x09, byte(0x10 + k)}
+			nt := l.dial(np, k%2)
+			if k%2 == 1 {
+				nt.phone = append(make([]byte, 4), np...)
+			}
+			var progress atomic.Int64
+			l.muted.Store(nt.idx, &progress)
+			go func(nt *term, seed int64) {
+				rr := rand.New(rand.NewSource(seed))
+				go func() { // drain
+					for range nt.recvCh {
+					}
+				}()
+				for {
+					select {
+					case <-stopNoise:
+						return
+					default:
+					}
+					body := randBytes(rr, 8+rr.Intn(12))
+					id := 0x0102
+					if rr.Intn(3) == 0 {
+						id, body = 0x0801, randBytes(rr, 40)
+					} else if nt.ver == 1 {
+						body = append(append([]byte{byte(len(body))}, body...), make([]byte, 35)...)
+					}
+					nt.conn.SetWriteDeadline(time.Now().Add(time.Second))
+					if _, err := nt.conn.Write(nt.frame(id, body)); err != nil {
+						return
+					}
+					time.Sleep(50 * time.Microsecond)
+				}
+			}(nt, r.Int63())
+		}
 		wrap := len(a) > 2 && a[2] == "wrap"
 		missed := 0
 		// every simulator exists before the first frame is generated (a fleet of simulated terminals in one process): each one
